@@ -42,6 +42,72 @@ func c03One(c *Ctx, m *Model, lay *rand.Rand, stream string) {
 	c.Nontrivial(text)
 }
 
+// c03LongLines: the same model with one physical line longer than 64 KiB (a full-line comment, a
+// trailing comment, a restriction list written on one line): line length is a layout choice too.
+func c03LongLines(c *Ctx, m *Model, rng *rand.Rand) {
+	text, _ := Render(m, nil)
+	want := canonModelExprWS(parserImage(m))
+	lines := strings.Split(text, "\n")
+	long := strings.Repeat("x", 66000+rng.Intn(70000))
+	check := func(kind, variant string, viaLean bool) {
+		c.R.Evaluations++
+		c.Dist("long_line_variants")
+		input := map[string]any{"kind": kind, "dsl_prefix": trunc(variant, 600), "dsl_bytes": len(variant), "model_written": want}
+		var out string
+		if viaLean {
+			out = dslCorr(c, "long-lines", variant)
+		} else {
+			o, _, _ := realParse(variant)
+			out = o
+		}
+		if !strings.HasPrefix(out, "(ok ") {
+			c.OracleFail("c03:long-lines", input, "a grammatical rendering with a line longer than 64 KiB ("+kind+") is not accepted", trunc(out, 400))
+			return
+		}
+		_, pm, _ := realParse(variant)
+		if got := protoExprWS(pm); got != want {
+			input["got"] = trunc(got, 2000)
+			c.OracleFail("c03:long-lines", input, "parsed model differs from the model written when one line is longer than 64 KiB ("+kind+")", "")
+		}
+	}
+	typeLines, defLines := []int{}, []int{}
+	for i, l := range lines {
+		if strings.HasPrefix(l, "type ") || strings.HasPrefix(l, "extend type ") {
+			typeLines = append(typeLines, i)
+		}
+		if strings.HasPrefix(l, "    define ") && strings.Count(l, "[") == strings.Count(l, "]") {
+			defLines = append(defLines, i)
+		}
+	}
+	if len(typeLines) > 0 {
+		i := typeLines[rng.Intn(len(typeLines))]
+		v := append(append(append([]string{}, lines[:i]...), "# "+long), lines[i:]...)
+		check("full-line comment before a type", strings.Join(v, "\n"), true)
+	}
+	if len(defLines) > 0 {
+		i := defLines[rng.Intn(len(defLines))]
+		v := append([]string{}, lines...)
+		v[i] = v[i] + " # " + long
+		check("trailing comment after a relation", strings.Join(v, "\n"), true)
+	}
+	// one relation whose direct assignment lists thousands of restrictions on one line
+	big := &Model{Schema: "1.1", Types: []Type{{Name: "user", MetaNil: true}, {Name: "doc"}}}
+	refs := []Ref{}
+	for i := 0; i < 12000; i++ {
+		refs = append(refs, Ref{Type: "user"})
+	}
+	big.Types[1].Rels = []Rel{{Name: "a", Rewrite: This(), Restr: []Ref{{Type: "user"}}}, {Name: "w", Rewrite: This(), Restr: refs}, {Name: "z", Rewrite: CU("a")}}
+	bt, _ := Render(big, nil)
+	bwant := canonModelExprWS(parserImage(big))
+	c.R.Evaluations++
+	c.Dist("long_line_variants")
+	if o, pm, _ := realParse(bt); !strings.HasPrefix(o, "(ok ") {
+		c.OracleFail("c03:long-lines", map[string]any{"kind": "restriction list of 12000 entries on one line", "dsl_bytes": len(bt)}, "a grammatical rendering with a line longer than 64 KiB is not accepted", trunc(o, 400))
+	} else if protoExprWS(pm) != bwant {
+		c.OracleFail("c03:long-lines", map[string]any{"kind": "restriction list of 12000 entries on one line", "dsl_bytes": len(bt)}, "parsed model differs from the model written", "")
+	}
+}
+
 func init() {
 	props["C03"] = func(c *Ctx) {
 		c.R.Rule = "generated DSL-valid models and module files x random grammatical layouts from the independent renderer (indentation none/spaces/tabs, blank lines, CRLF, " +
@@ -64,6 +130,9 @@ func init() {
 			for j := 0; j < k; j++ {
 				c03One(c, m, rand.New(rand.NewSource(rng.Int63())), "layouts")
 			}
+		}
+		for i := 0; i < c.Pick(4, 20); i++ {
+			c03LongLines(c, GenModel(rng, GenOpts{DSLValid: true, Conds: true, MaxDepth: 2}), rng)
 		}
 		m := GenModel(rand.New(rand.NewSource(7)), GenOpts{DSLValid: true, Conds: true, MaxDepth: 2, MaxTypes: 2, MaxRels: 2})
 		t, _ := Render(m, rand.New(rand.NewSource(3)))
